@@ -181,8 +181,8 @@ def _locale_data(loc):
 
 @functools.lru_cache(maxsize=None)
 def templates(loc, mode, direction, absolute):
-    """all (unit, regex) a correct phrase of this mode/direction may match - from the locale's
-    own data, never through DifferenceFormatter."""
+    """all (unit, plural class, regex) a correct phrase of this mode/direction may match - from the
+    locale's own data, never through DifferenceFormatter."""
     data = _locale_data(loc)
     tr = data["translations"]
     cu = data.get("custom", {})
@@ -190,30 +190,30 @@ def templates(loc, mode, direction, absolute):
     res = []
     if absolute:
         for u in UNITS:
-            for t in tr["units"][u].values():
-                res.append((u, _tre(t)))
+            for cls, t in tr["units"][u].items():
+                res.append((u, cls, _tre(t)))
         if few:
-            res.append(("few", re.compile("^" + re.escape(few) + "$")))
+            res.append(("few", None, re.compile("^" + re.escape(few) + "$")))
         return tuple(res)
     if mode == "now":
         for u in UNITS:
-            for t in tr["relative"][u][direction].values():
-                res.append((u, _tre(t)))
+            for cls, t in tr["relative"][u][direction].items():
+                res.append((u, cls, _tre(t)))
         wrap = cu.get("ago" if direction == "past" else "from_now")
     else:
         wrap = cu.get("before" if direction == "past" else "after")
         ur = cu.get("units_relative", {})
         for u in UNITS:
-            forms = list(tr["units"][u].values())
+            forms = list(tr["units"][u].items())
             if u in ur and direction in ur[u]:
-                forms += list(ur[u][direction].values())
-            for t in forms:
+                forms += list(ur[u][direction].items())
+            for cls, t in forms:
                 if wrap:
                     full = re.sub(r"\{[^}]*\}", lambda m: "\x00", wrap).replace("\x00", t)
-                    res.append((u, _tre(full)))
+                    res.append((u, cls, _tre(full)))
     if few and wrap:
         w = re.sub(r"\{[^}]*\}", lambda m: "\x00", wrap).replace("\x00", few)
-        res.append(("few", re.compile("^" + re.escape(w) + "$")))
+        res.append(("few", None, re.compile("^" + re.escape(w) + "$")))
     return tuple(res)
 
 
@@ -226,7 +226,7 @@ def phrase_ok(s, loc, mode, absolute, direction, elapsed_s):
     dirs = [direction] if direction else ["past", "future"]
     best = "no-template-of-the-right-direction"
     for d in dirs:
-        for unit, rx in templates(loc, mode, d, absolute):
+        for unit, cls, rx in templates(loc, mode, d, absolute):
             m = rx.match(s)
             if not m:
                 continue
@@ -242,8 +242,18 @@ def phrase_ok(s, loc, mode, absolute, direction, elapsed_s):
             except (IndexError, ValueError, TypeError):
                 return None
             if abs(cnt * ULEN[unit] - abs(elapsed_s)) <= ULEN[unit] * 1.02:
+                # localized: the form is the one of the printed count's plural class (the locale's
+                # own rule); forms of several classes may be textually identical, so keep looking
+                try:
+                    want_cls = _locale_data(loc)["plural"](cnt)
+                except Exception:
+                    want_cls = cls
+                if cls is not None and want_cls != cls:
+                    best = "plural-class"
+                    continue
                 return _wrong_direction(s, loc, mode, absolute, direction)
-            best = "magnitude"
+            if best != "plural-class":
+                best = "magnitude"
     return best
 
 
@@ -254,7 +264,7 @@ def _wrong_direction(s, loc, mode, absolute, direction):
     if absolute or direction is None:
         return None
     other = "future" if direction == "past" else "past"
-    for _unit, rx in templates(loc, mode, other, False):
+    for _unit, _cls, rx in templates(loc, mode, other, False):
         if rx.match(s):
             return "matches-the-opposite-direction"
     return None
